@@ -13,7 +13,7 @@ pub fn run(ctx: &Ctx) -> Report {
     let mut r = Report::new();
     let cons = consensus(&WorldOpts::default());
     if std::env::var("BOOTPROBE").is_ok() {
-        for i in 0..10 {
+        for i in 0..40 {
             let t = std::time::Instant::now();
             let dir = ctx.scratch.join(format!("bp{i}"));
             let node = Node::boot(&dir, &NodeOpts::new(cons.clone())).expect("boot");
@@ -27,8 +27,23 @@ pub fn run(ctx: &Ctx) -> Report {
             node.wait_startup().unwrap();
             let t1 = t.elapsed();
             node.shutdown();
-            println!("   reopen {:?} shutdown {:?}", t1, t.elapsed());
+            println!("   reopen {:?} shutdown {:?} rss {:?}", t1, t.elapsed(), std::fs::read_to_string("/proc/self/status").ok().and_then(|t| t.lines().find(|l| l.starts_with("VmRSS")).map(|l| l.to_string())));
+            let _ = std::fs::remove_dir_all(&dir);
+            println!("   fds {} threads {}", std::fs::read_dir("/proc/self/fd").map(|d| d.count()).unwrap_or(0), std::fs::read_dir("/proc/self/task").map(|d| d.count()).unwrap_or(0));
         }
+        let mut names: std::collections::BTreeMap<String, usize> = Default::default();
+        for e in std::fs::read_dir("/proc/self/task").unwrap().flatten() {
+            let n = std::fs::read_to_string(e.path().join("comm")).unwrap_or_default().trim().to_string();
+            *names.entry(n).or_insert(0) += 1;
+        }
+        println!("threads: {names:?}");
+        let mut fds: std::collections::BTreeMap<String, usize> = Default::default();
+        for e in std::fs::read_dir("/proc/self/fd").unwrap().flatten() {
+            let n = std::fs::read_link(e.path()).map(|p| p.display().to_string()).unwrap_or_default();
+            let n = n.split("/bp").next().unwrap_or("").to_string() + n.rsplit('/').next().unwrap_or("");
+            *fds.entry(n).or_insert(0) += 1;
+        }
+        println!("fds: {fds:?}");
         r.outcomes.insert(1); r.outcomes.insert(2);
         return r;
     }
